@@ -527,6 +527,9 @@ func genCase(r *gen.Rand, idx int, extra bool) *Case {
 			}
 		}
 	}
+	if profile == 4 || profile == 5 {
+		cancelScenario(r, w)
+	}
 	for i := 0; i < n; i++ {
 		c := genCmd(r, w, extra)
 		if alt, ok := profileCmd(r, w, profile); ok {
@@ -561,6 +564,74 @@ func staleKey(w *World) bool {
 		}
 	}
 	return false
+}
+
+// cancelScenario: a group is created and marked deleted; the shard-group duration is changed (shorter or longer, or left); one
+// or two groups are created for instants anywhere in / around the old span (its start, just after it, the middle, the last
+// nanosecond, the cell before, the cell after) for either engine kind; then the deletion is cancelled. Whether the guard of the
+// cancel must refuse depends on an INTERVAL overlap with a live group of the same engine kind, not on who serves the start.
+func cancelScenario(r *gen.Rand, w *World) {
+	type ref struct {
+		db, rp int
+		sgd    int64
+	}
+	var ready []ref
+	for _, db := range w.prev.DBs {
+		for _, rp := range db.RPs {
+			if !db.Mark && !rp.Mark && len(rp.Msts) > 0 {
+				ready = append(ready, ref{code(db.Key), code(rp.Key), rp.SGD})
+			}
+		}
+	}
+	if len(ready) == 0 || len(w.prev.Nodes) == 0 {
+		return
+	}
+	p := gen.Pick(r, ready)
+	base := Base + int64(r.Range(-40, 40))*Hour
+	eng := r.Intn(2)
+	before := w.prev.MaxSG
+	if w.exec(Cmd{K: "csg", DB: p.db, RP: p.rp, TS: base, Eng: eng}) != 0 || w.prev.MaxSG == before {
+		return
+	}
+	id := w.prev.MaxSG
+	var start, end int64
+	for _, db := range w.prev.DBs {
+		for _, rp := range db.RPs {
+			for _, g := range rp.SGs {
+				if g.ID == id {
+					start, _ = strconv.ParseInt(g.Start, 10, 64)
+					end, _ = strconv.ParseInt(g.End, 10, 64)
+				}
+			}
+		}
+	}
+	if end <= start {
+		return
+	}
+	w.exec(Cmd{K: "delsg", DB: p.db, RP: p.rp, ID: id})
+	if r.Chance(4, 5) {
+		// shorter and longer durations than the one the deleted group was created under
+		pool := []int64{Hour, 2 * Hour, 3 * Hour, 24 * Hour, 7 * 24 * Hour}
+		v := gen.Pick(r, pool)
+		w.exec(Cmd{K: "urp", DB: p.db, RP: p.rp, SGD: &v})
+	}
+	span := end - start
+	spots := []int64{start, start + 1, start + span/4, start + span/2, start + 3*span/4, end - 1, end, start - 1, start - span/2, end + span/2}
+	for k := r.Range(1, 2); k > 0; k-- {
+		e := eng
+		if r.Chance(1, 5) {
+			e = 1 - eng
+		}
+		w.exec(Cmd{K: "csg", DB: p.db, RP: p.rp, TS: gen.Pick(r, spots), Eng: e})
+		if r.Chance(1, 4) {
+			v := gen.Pick(r, []int64{Hour, 2 * Hour, 24 * Hour})
+			w.exec(Cmd{K: "urp", DB: p.db, RP: p.rp, SGD: &v})
+		}
+	}
+	if r.Chance(1, 6) {
+		w.exec(Cmd{K: "restore"})
+	}
+	w.exec(Cmd{K: "delsg", DB: p.db, RP: p.rp, ID: id, X: "cancel"})
 }
 
 // profileCmd replaces some of the generated commands by the ones a profile concentrates on
@@ -790,6 +861,33 @@ func corpus() []*Case {
 			{K: "crp", DB: 1, RP: 3, D: i64(0), SGD: i64(Hour), Def: true},
 			{K: "urp", DB: 1, RP: 0, M: 0, X: "rename", Def: true},
 			{K: "droprp", DB: 1, RP: 0}, {K: "restore"}, {K: "crp", DB: 1, RP: 1, D: i64(0), SGD: i64(Hour), Def: true}, {K: "csg", DB: 1, RP: 0, TS: t10},
+		}),
+		// cancel-delete after the shard duration was SHORTENED: the re-created group lies inside the old span without covering
+		// its start ([10:00,12:00) deleted, 1h groups, write at 11:30 -> [11:00,12:00)); the guard must refuse (interval overlap)
+		scripted("cancel-delete-after-shorter-duration", 1, []Cmd{
+			{K: "cnode", H: 1, T: 1},
+			{K: "cdb", DB: 1, HasRP: true, RP: 1, D: i64(0), SGD: i64(2 * Hour)},
+			{K: "cmst", DB: 1, RP: 1, M: 1},
+			{K: "csg", DB: 1, RP: 1, TS: t10 + 5}, {K: "delsg", DB: 1, RP: 1, ID: 1},
+			{K: "urp", DB: 1, RP: 1, SGD: i64(Hour)},
+			{K: "csg", DB: 1, RP: 1, TS: t10 + 90*60*1e9},
+			{K: "delsg", DB: 1, RP: 1, ID: 1, X: "cancel"}, // refused: [11:00,12:00) is live
+			{K: "delsg", DB: 1, RP: 1, ID: 2}, {K: "delsg", DB: 1, RP: 1, ID: 1, X: "cancel"}, // accepted now
+			{K: "delsg", DB: 1, RP: 1, ID: 2, X: "cancel"}, // refused the other way round
+			{K: "csg", DB: 1, RP: 1, TS: t10 + 90*60*1e9, Eng: 1}, {K: "delsg", DB: 1, RP: 1, ID: 1}, {K: "delsg", DB: 1, RP: 1, ID: 1, X: "cancel"}, // other engine kind: no obstacle
+		}),
+		// ... and after it was made LONGER: the new group [00:00,24:00) would contain the old hour but is clipped around it while it
+		// is live; once the hour is deleted the day group takes the span, and the hour cannot come back
+		scripted("cancel-delete-after-longer-duration", 1, []Cmd{
+			{K: "cnode", H: 1, T: 1},
+			{K: "cdb", DB: 1, HasRP: true, RP: 1, D: i64(0), SGD: i64(Hour)},
+			{K: "cmst", DB: 1, RP: 1, M: 1},
+			{K: "csg", DB: 1, RP: 1, TS: t10 + 5}, {K: "csg", DB: 1, RP: 1, TS: t10 + 2*Hour}, {K: "delsg", DB: 1, RP: 1, ID: 1},
+			{K: "urp", DB: 1, RP: 1, SGD: i64(24 * Hour)},
+			{K: "csg", DB: 1, RP: 1, TS: t10 - 3*Hour}, // [00:00,12:00): clipped at the live [12:00,13:00), covers the deleted hour
+			{K: "delsg", DB: 1, RP: 1, ID: 1, X: "cancel"}, // refused
+			{K: "csg", DB: 1, RP: 1, TS: t10 + 5*Hour}, {K: "delsg", DB: 1, RP: 1, ID: 2}, {K: "delsg", DB: 1, RP: 1, ID: 2, X: "cancel"},
+			{K: "delsg", DB: 1, RP: 1, ID: 3}, {K: "delsg", DB: 1, RP: 1, ID: 1, X: "cancel"}, {K: "delsg", DB: 1, RP: 1, ID: 3, X: "cancel"},
 		}),
 		// three policies of one database, each with groups, expanded four times: the walk order decides which ids each gets
 		scripted("expand-walks-policies-in-name-order", 1, []Cmd{
